@@ -115,14 +115,7 @@ func renderDSL(sb *strings.Builder, g interface{}, seen map[string]bool) (string
 			case "stringprefix": // the DSL has no separate delimiter: it is part of each prefix
 				key = strconv.Quote(dslName(disc[i]) + dslName(rm["d"]))
 			case "kinded":
-				var mt TyAST
-				b, _ := json.Marshal(x)
-				if xm := x.(map[string]interface{}); xm["k"] == "enum" {
-					mt = TyAST{K: "enum", Repr: &ReprAST{R: xm["repr"].(map[string]interface{})["r"].(string)}}
-				} else if err := json.Unmarshal(b, &mt); err != nil {
-					return "", err
-				}
-				key = reprKindOf(&mt).String()
+				key = genericReprKind(x.(map[string]interface{}))
 			}
 			lines = append(lines, "\t| "+mn+" "+key)
 		}
@@ -131,6 +124,33 @@ func renderDSL(sb *strings.Builder, g interface{}, seen map[string]bool) (string
 		return "", fmt.Errorf("cannot render kind %q", k)
 	}
 	return name, nil
+}
+
+// genericReprKind: the representation kind of a type given as untyped JSON, in the DSL's spelling
+func genericReprKind(m map[string]interface{}) string {
+	k := m["k"].(string)
+	r := ""
+	if rm, ok := m["repr"].(map[string]interface{}); ok {
+		r = rm["r"].(string)
+	}
+	switch k {
+	case "struct":
+		switch r {
+		case "map":
+			return "map"
+		case "tuple", "listpairs":
+			return "list"
+		}
+		return "string"
+	case "union":
+		if r == "keyed" {
+			return "map"
+		}
+		return "string"
+	case "enum":
+		return r
+	}
+	return k
 }
 
 // BuildTypeSystemViaDSL: the same type system as BuildTypeSystem, built from rendered DSL text by the
